@@ -379,7 +379,11 @@ class Polygon(Shape2D):
 
         inertia_tensor = np.diag([0, 0, self.polar_moment_inertia])
         shifted_inertia_tensor = translate_inertia_tensor(
-            original_center, rotate_order2_tensor(mat, inertia_tensor), self.area
+            # mat rotates the polygon into the xy-plane, so the tensor has to be
+            # rotated back with its inverse.
+            original_center,
+            rotate_order2_tensor(mat.T, inertia_tensor),
+            self.area,
         )
 
         self.center = original_center
